@@ -7,7 +7,7 @@ import json
 from harness import common as C
 from harness import hist, model
 from harness.model import T
-from harness.props.c06 import check_history, attribute_nested_leak, DT, _spell
+from harness.props.c06 import check_history, attribute_nested_leak, class_metas, leak_roots, _doc_keys, _nkey, DT, _spell
 
 STYLES = ['CAMEL', 'SNAKE', 'PASCAL', 'LISP']
 
@@ -110,6 +110,45 @@ LOAD_STYLES = ['CAMEL', 'CAMEL', 'SNAKE', 'PASCAL', 'LISP', 'NONE']
 ALIAS_KEY = 'fKey'
 FIELD_NAMES = ['some_val', 'when_at', 'inner_obj', 'dflt_val']
 FIELD_DEFAULTS = {'dflt_val': ['int', 3]}          # canonical defaults of the universe's defaulted scalar fields
+JSON_KINDS = [k for k, v in KINDS.items() if v[1]]  # first base JSONWizard / JSONPyWizard: inner Meta and class keyword arguments
+KEY_CASES = ['CAMEL', 'SNAKE', 'PASCAL', 'AUTO', 'KEBAB']
+DEBUG_ARGS = [True, 'ERROR', 'INFO', 'DEBUG', 'WARNING', 10, 40]
+TAG_KEYS = ['__tag__', 'kind', 'type_']
+
+
+def pick_class_args(rng, which=None):
+    """configuration through the keyword arguments of the class statement: `class F(JSONWizard, key_case='CAMEL', debug='ERROR')`"""
+    which = which or rng.choice(['key_case', 'debug', 'both'])
+    kw = {}
+    if which in ('key_case', 'both'):
+        kw['key_case'] = rng.choice(KEY_CASES)
+    if which in ('debug', 'both'):
+        kw['debug'] = rng.choice(DEBUG_ARGS)
+    if rng.random() < 0.15:
+        kw['str'] = rng.choice([True, False])
+    items = list(kw.items())
+    rng.shuffle(items)
+    return dict(items)
+
+
+def other_class_args(rng, kw):
+    """class arguments of a second class: mostly the argument the first one does not use, else any"""
+    has = {k for k in ('key_case', 'debug') if k in kw}
+    which = ({'key_case', 'debug'} - has).pop() if len(has) == 1 and rng.random() < 0.6 else None
+    if len(has) == 2 and rng.random() < 0.6:
+        which = rng.choice(['key_case', 'debug'])
+    return pick_class_args(rng, which)
+
+
+def class_args_meta(kw):
+    """the settings the class arguments stand for (documented: key_case = v1 + v1_key_case, debug = v1_debug)"""
+    m = {}
+    if (kw or {}).get('key_case') is not None:
+        m['v1'] = True
+        m['v1_key_case'] = kw['key_case']
+    if (kw or {}).get('debug'):
+        m['v1_debug'] = 10 if kw['debug'] is True else kw['debug']
+    return m
 
 
 def pick_meta2(rng, v1=False):
@@ -151,15 +190,25 @@ def flat_meta(m):
     return None if m is None else dict(m['dump'], **m['load'], **m['special'])
 
 
-def cls2(rng, name, kind, nested=None, shape='single', meta=None, style=None):
-    """source + bind ops of one class of the universe; returns (ops, full own meta as the library sees it)"""
+def cls2(rng, name, kind, nested=None, shape='single', meta=None, style=None, class_args=None, meta_base=None, union_with=None):
+    """source + bind ops of one class of the universe; returns (ops, full own meta as the library sees it).
+    class_args: keyword arguments of the class statement (JSONWizard kinds); meta_base = (class name, its flat Meta): the inner Meta
+    derives from that class's inner Meta (`class _(Shared._)`) instead of JSONWizard.Meta; union_with: with shape 'union' the field
+    is Union[nested, union_with]"""
     bases, can_inner, implied = KINDS[kind]
+    if class_args:
+        assert can_inner
+        bases = bases[:-1] + ''.join(f', {k}={v!r}' for k, v in class_args.items()) + ')'
     inner = ''
     binds = []
+    if meta_base is not None and (meta is None or style != 'inner'):
+        assert can_inner
+        inner = f'    class _({meta_base[0]}._):\n        pass\n'
     if meta is not None:
         if style == 'inner':
             assert can_inner
-            inner = '    class _(JSONWizard.Meta):\n' + ''.join(f'        {k} = {v!r}\n' for k, v in flat_meta(meta).items())
+            inner = (f'    class _({meta_base[0] + "._" if meta_base else "JSONWizard.Meta"}):\n'
+                     + (''.join(f'        {k} = {v!r}\n' for k, v in flat_meta(meta).items()) or '        pass\n'))
         else:
             load_part = dict(meta['load'])
             if 'key_transform_with_load' in load_part:
@@ -180,25 +229,29 @@ def cls2(rng, name, kind, nested=None, shape='single', meta=None, style=None):
             binds = [{'op': 'bind', 'cls': name, 'kind': k, 'meta': mm} for k, mm in parts if mm]
     fields = '    some_val: int\n    when_at: datetime\n'
     if nested is not None:
-        fields += {'single': f'    inner_obj: {nested}\n', 'list': f'    inner_obj: list[{nested}]\n', 'optional': f'    inner_obj: Optional[{nested}]\n'}[shape]
+        fields += {'single': f'    inner_obj: {nested}\n', 'list': f'    inner_obj: list[{nested}]\n', 'optional': f'    inner_obj: Optional[{nested}]\n',
+                   'union': f'    inner_obj: Union[{nested}, {union_with}]\n'}[shape]
     fields += '    dflt_val: int = 3\n'
     src = f'@dataclass\nclass {name}{bases}:\n{inner}{fields}'
     own = dict(implied or {})
     bound = {}
-    if meta is not None:
-        if style == 'inner':
-            bound = flat_meta(meta)
-        else:
-            for b in binds:
-                for k, v in b['meta'].items():
-                    bound[{'key_transform': 'key_transform_with_' + b['kind']}.get(k, k)] = v
-    if style == 'inner' and meta is not None:
-        own = bound if kind != 'py' else dict(own, **bound)      # an inner Meta replaces what the YAML / TOML mixin would have bound
-    else:
-        own.update(bound)
-    op = {'op': 'src', 'src': src, 'defines': [name], 'requires': [nested] if nested else [], 'metas': {name: own or None}}
+    inner_meta = None          # what the inner Meta declares, inherited settings included
+    if meta_base is not None:
+        inner_meta = dict(meta_base[1] or {}, **(flat_meta(meta) if meta is not None and style == 'inner' else {}))
+    elif meta is not None and style == 'inner':
+        inner_meta = flat_meta(meta)
+    if meta is not None and style != 'inner':
+        for b in binds:
+            for k, v in b['meta'].items():
+                bound[{'key_transform': 'key_transform_with_' + b['kind']}.get(k, k)] = v
+    if inner_meta is not None:
+        own = dict(inner_meta) if kind != 'py' else dict(own, **inner_meta)      # an inner Meta replaces what the YAML / TOML mixin would have bound
+    own.update(class_args_meta(class_args))      # bound (LoadMeta) right after the inner Meta
+    own.update(bound)
+    requires = ([nested] if nested else []) + ([union_with] if nested and shape == 'union' else []) + ([meta_base[0]] if meta_base else [])
+    op = {'op': 'src', 'src': src, 'defines': [name], 'requires': requires, 'metas': {name: own or None}}
     if nested:
-        op['nests'] = {name: [nested]}
+        op['nests'] = {name: [nested] + ([union_with] if shape == 'union' else [])}
     if own and own.get('recursive') is not False:
         op['configured'] = [name]
     return [op] + binds, (own or None)
@@ -207,11 +260,11 @@ def cls2(rng, name, kind, nested=None, shape='single', meta=None, style=None):
 def _inst2(name, nested_expr=None, shape='single'):
     e = f'{name}(some_val=1, when_at={DT}'
     if nested_expr is not None:
-        e += ', inner_obj=' + {'single': nested_expr, 'list': f'[{nested_expr}]', 'optional': nested_expr}[shape]
+        e += ', inner_obj=' + {'single': nested_expr, 'list': f'[{nested_expr}]', 'optional': nested_expr, 'union': nested_expr}[shape]
     return e + ')'
 
 
-def _doc2(rng, nested=False, shape='single', alias=False, extra=False, spell=False):
+def _doc2(rng, nested=False, shape='single', alias=False, extra=False, spell=False, tag=None):
     one = rng.choice([None, None, 'CAMEL', 'PASCAL', 'LISP']) if spell else 'SNAKE'      # one spelling for the whole document, or one per key
 
     def key(k):
@@ -227,15 +280,18 @@ def _doc2(rng, nested=False, shape='single', alias=False, extra=False, spell=Fal
         d[rng.choice(['bogus_key', 'bogusKey'])] = 1
     if nested:
         inner = _doc2(rng, False, alias=alias and rng.random() < 0.85, extra=extra and rng.random() < 0.5, spell=spell)
+        if tag is not None:                # (tag key, tag) of the Union member the inner document is meant for
+            inner = dict([tag], **inner) if rng.random() < 0.7 else dict(inner, **dict([tag]))
         d[key('inner_obj')] = [inner] if shape == 'list' else inner
     items = list(d.items())
     rng.shuffle(items)
     return dict(items)
 
 
-def _ops2(rng, name, kind, nested, shape, uses, n_docs=3, n_dumps=2):
+def _ops2(rng, name, kind, nested, shape, uses, n_docs=3, n_dumps=2, members=None, drop_keys=None, p_extra=0.3):
     """a pool of dumps and loads of one class: documents in every key spelling, with the configured family's alias key and an
-    unknown key now and then"""
+    unknown key now and then.  members (shape 'union'): [(class name, (tag key, tag) or None)], the Union members a dump / document
+    picks from; drop_keys: keys left out of the recorded dumps (the tag keys in play, see gen_pair2)"""
     dump_vias, load_vias = ['asdict', 'asdict'], ['fromdict', 'fromdict']
     if KINDS[kind][1]:                      # JSONWizard API
         dump_vias += ['method', 'to_json']
@@ -248,51 +304,134 @@ def _ops2(rng, name, kind, nested, shape, uses, n_docs=3, n_dumps=2):
         load_vias.append('toml')
     pool = []
     for _ in range(n_dumps):
-        pool.append({'op': 'dump', 'cls': name, 'expr': _inst2(name, _inst2(nested) if nested else None, shape),
+        member = rng.choice(members)[0] if members else nested
+        pool.append({'op': 'dump', 'cls': name, 'expr': _inst2(name, _inst2(member) if nested else None, shape),
                      'via': rng.choice(dump_vias), 'uses': uses})
     for _ in range(n_docs):
-        pool.append({'op': 'load', 'cls': name, 'doc': _doc2(rng, bool(nested), shape, alias=rng.random() < 0.65, extra=rng.random() < 0.3, spell=rng.random() < 0.7),
+        tag = rng.choice(members)[1] if members else None
+        pool.append({'op': 'load', 'cls': name, 'doc': _doc2(rng, bool(nested), shape, alias=rng.random() < 0.65, extra=rng.random() < p_extra, spell=rng.random() < 0.7, tag=tag),
                      'via': rng.choice(load_vias), 'uses': uses})
+    if drop_keys:
+        for op in pool:
+            if op['op'] == 'dump':
+                op['drop_keys'] = list(drop_keys)
     return pool
 
 
-def gen_pair2(rng, relation):
-    """as gen_pair, over the wider universe; returns (defs, F ops, G ops)"""
+def pick_meta_nested(rng):
+    """a Meta for the nested class itself: as pick_meta2, an explicit tag only rarely, its own tag key now and then"""
+    m = pick_meta2(rng, v1=rng.random() < 0.12)
+    m['special'].pop('recursive', None)
+    if rng.random() < 0.7:
+        m['special'].pop('tag', None)
+    if rng.random() < 0.3:
+        m['special']['tag_key'] = rng.choice(TAG_KEYS[1:])
+    if rng.random() < 0.7:
+        # settings that are only read when the class's functions are generated
+        if rng.random() < 0.65:
+            m['dump']['skip_defaults'] = True
+        if rng.random() < 0.5 and not m['load'].get('v1'):
+            m['load']['raise_on_unknown_json_key'] = True
+    return m
+
+
+def gen_pair2(rng, relation, focus=None):
+    """as gen_pair, over the wider universe; returns (defs, F ops, G ops).  `focus` raises the weight of one dimension that is rare
+    otherwise: 'class-args' (both families configured through class keyword arguments, the second mostly through the argument the
+    first does not use), 'union-member' (the nested class N has a Meta of its own and is a member of a Union field of a root that
+    assigns tags automatically), 'inherited-meta' (N's inner Meta derives from another class's inner Meta)"""
     n, f = model.fresh('N'), model.fresh('F')
-    f_kind = rng.choice(list(KINDS))
+    f_kind = rng.choice(JSON_KINDS if focus == 'class-args' else list(KINDS))
     _, can_inner, _ = KINDS[f_kind]
     f_style = rng.choice((['inner', 'inner'] if can_inner else []) + ['bind-load', 'bind-dump', 'bind-both'])
-    f_meta = pick_meta2(rng, v1=rng.random() < 0.25)
     shape = rng.choice(['single', 'single', 'list', 'optional'])
-    n_kind = rng.choice(['plain', 'plain', 'json'])
-    n_defs, _ = cls2(rng, n, n_kind)
-    f_defs, _ = cls2(rng, f, f_kind, n, shape, f_meta, f_style)
+    if rng.random() < (0.85 if focus == 'union-member' else 0.05):
+        shape = 'union'
+    # A root with a Union field is never put on the v1 engine (Meta v1 / key_case argument): when its first use is a dump, the v1 load
+    # function built for a member while tags are assigned stays cached for the member itself - recorded, not repaired:
+    # findings/v1-union-member-loader-leaks.py (same cause as dump-first-auto-tags-stale-nested-loaders)
+    f_meta = pick_meta2(rng, v1=shape != 'union' and rng.random() < 0.25)
+    f_args = None
+    if can_inner and rng.random() < (1.0 if focus == 'class-args' else 0.08):
+        f_args = pick_class_args(rng, 'debug' if shape == 'union' else None)
+        if rng.random() < 0.5:
+            f_meta = None          # the class arguments are the whole configuration
+    # ---- the nested class: mostly unconfigured; or with a Meta of its own - inner (possibly derived from the inner Meta of another
+    # class, `class _(Shared._)`) or bound
+    own_n = rng.random() < {'union-member': 0.9, 'inherited-meta': 1.0}.get(focus, 0.1)
+    inherit = own_n and rng.random() < (1.0 if focus == 'inherited-meta' else 0.15)
+    n_kind = rng.choice(JSON_KINDS) if inherit else rng.choice(['plain', 'plain', 'json'])
+    n_meta = pick_meta_nested(rng) if own_n else None
+    n_style, n_base, pre_defs = None, None, []
+    if inherit:
+        s_name, s_meta = model.fresh('S'), pick_meta2(rng)
+        s_meta['special'].pop('tag', None)
+        pre_defs, _ = cls2(rng, s_name, rng.choice(JSON_KINDS), meta=s_meta, style='inner')
+        n_style, n_base = 'inner', (s_name, flat_meta(s_meta))
+        if rng.random() < 0.25:
+            n_meta = {'dump': {}, 'load': {}, 'special': {}}          # nothing but the inherited settings
+    elif own_n:
+        n_style = rng.choice((['inner', 'inner'] if KINDS[n_kind][1] else []) + ['bind-load', 'bind-dump', 'bind-both'])
+    n_defs, n_own = cls2(rng, n, n_kind, meta=n_meta, style=n_style, meta_base=n_base)
+    n_defs = pre_defs + n_defs
+    # a strict nested class sees unknown keys more often
+    p_extra = 0.6 if (n_own or {}).get('raise_on_unknown_json_key') or (n_own or {}).get('v1_on_unknown_key') == 'RAISE' else 0.3
+    # ---- a Union field: N and a second dataclass, the root mostly assigning tags automatically
+    b, members, drop = None, None, None
+    if shape == 'union':
+        b = model.fresh('B')
+        b_defs, _ = cls2(rng, b, rng.choice(['plain', 'json']))
+        n_defs = n_defs + b_defs
+        f_meta = f_meta or {'dump': {}, 'load': {}, 'special': {}}
+        auto = rng.random() < 0.85
+        if auto:
+            f_meta['special']['auto_assign_tags'] = True
+        if rng.random() < 0.35:
+            f_meta['special']['tag_key'] = rng.choice(TAG_KEYS[1:])
+        tag_key = f_meta['special'].get('tag_key') or '__tag__'
+        n_tag = (n_own or {}).get('tag') or (n if auto else None)
+        members = [(n, (tag_key, n_tag) if n_tag else None)] * 2 + [(b, (tag_key, b) if auto else None)]
+        # An auto-assigned tag stays on the member class (the unchanged library writes it into the member's own Meta, so a later dump
+        # of N on its own or below G carries the tag entry): the tag keys in play are kept out of the records of the G side, every
+        # other setting of N has to survive
+        drop = TAG_KEYS
+    f_defs, _ = cls2(rng, f, f_kind, n, shape, f_meta, f_style, class_args=f_args, union_with=b)
     defs = n_defs + f_defs
-    f_ops = _ops2(rng, f, f_kind, n, shape, [f, n], n_dumps=3)
+    f_uses = [f, n] + ([b] if b else [])
+    f_ops = _ops2(rng, f, f_kind, n, shape, f_uses, n_dumps=3, members=members)
+
+    def g_class_args(g_kind):
+        if not KINDS[g_kind][1]:
+            return None
+        if focus == 'class-args':
+            return other_class_args(rng, f_args)
+        return pick_class_args(rng) if rng.random() < 0.08 else None
     if relation == 'disjoint':
         n2, g = model.fresh('N'), model.fresh('G')
         # the unrelated family often uses the same mixin as the configured one
         g_kind = rng.choice([k for k in KINDS if MIXIN_GROUP[k] == MIXIN_GROUP[f_kind]]) if rng.random() < 0.6 else rng.choice(list(KINDS))
+        if focus == 'class-args':
+            g_kind = rng.choice(JSON_KINDS)
         g_meta = pick_meta2(rng, v1=rng.random() < 0.2) if rng.random() < 0.25 else None
         g_style = rng.choice((['inner'] if KINDS[g_kind][1] else []) + ['bind-load', 'bind-dump', 'bind-both']) if g_meta else None
         g_shape = rng.choice(['single', 'list'])
         n2_defs, _ = cls2(rng, n2, rng.choice(['plain', 'json']))
-        g_defs, _ = cls2(rng, g, g_kind, n2, g_shape, g_meta, g_style)
+        g_defs, _ = cls2(rng, g, g_kind, n2, g_shape, g_meta, g_style, class_args=g_class_args(g_kind))
         g_all = n2_defs + g_defs
         # G may be defined before or after F
         defs = g_all + defs if rng.random() < 0.5 else defs + g_all
         g_ops = _ops2(rng, g, g_kind, n2, g_shape, [g, n2], n_docs=4) + _ops2(rng, n2, 'plain', None, None, [n2], n_docs=1)
     elif relation == 'shared-nested':
         g = model.fresh('G')
-        g_kind = rng.choice(list(KINDS))
+        g_kind = rng.choice(JSON_KINDS if focus == 'class-args' else list(KINDS))
         g_meta = pick_meta2(rng, v1=rng.random() < 0.2) if rng.random() < 0.4 else None
         g_style = rng.choice((['inner'] if KINDS[g_kind][1] else []) + ['bind-load', 'bind-dump', 'bind-both']) if g_meta else None
         g_shape = rng.choice(['single', 'list'])
-        g_defs, _ = cls2(rng, g, g_kind, n, g_shape, g_meta, g_style)
+        g_defs, _ = cls2(rng, g, g_kind, n, g_shape, g_meta, g_style, class_args=g_class_args(g_kind))
         defs = defs + g_defs
-        g_ops = _ops2(rng, g, g_kind, n, g_shape, [g, n])
+        g_ops = _ops2(rng, g, g_kind, n, g_shape, [g, n], drop_keys=drop, p_extra=p_extra)
     elif relation == 'nested-alone':
-        g_ops = _ops2(rng, n, n_kind, None, None, [n])
+        g_ops = _ops2(rng, n, n_kind, None, None, [n], drop_keys=drop, p_extra=p_extra)
     else:
         raise ValueError(relation)
     return defs, f_ops, g_ops
@@ -330,11 +469,11 @@ def fingerprint(out, order):
     return res
 
 
-def order_ops(rng, f_ops, g_ops):
+def order_ops(rng, f_ops, g_ops, orders=('g-first', 'f-first', 'interleaved'), g_len=(1, 4)):
     """operations of the two families in one of the orders G before F (and once more after), F before G, interleaved"""
-    order = rng.choice(['g-first', 'f-first', 'interleaved'])
+    order = rng.choice(list(orders))
     f_seq = [copy.deepcopy(rng.choice(f_ops)) for _ in range(rng.randint(1, 3))]
-    g_seq = [copy.deepcopy(rng.choice(g_ops)) for _ in range(rng.randint(1, 4))]
+    g_seq = [copy.deepcopy(rng.choice(g_ops)) for _ in range(rng.randint(*g_len))]
     if order == 'g-first':
         return g_seq + f_seq + copy.deepcopy(g_seq[:1])
     if order == 'f-first':
@@ -347,18 +486,44 @@ def order_ops(rng, f_ops, g_ops):
     return seq
 
 
+class _RepeatBudget:
+    """ctx as check_history sees it: Ctx.fail keeps the first 200 failures of a run, attributed ones included, so the repeats of a
+    recorded finding (the nested-class leak shows up in a large share of the histories) must not use up the room of the failures
+    that are not attributed: after `per_key` failures under one known-finding key further ones are only counted"""
+
+    def __init__(self, ctx, per_key=30):
+        self._ctx, self._per_key, self._n = ctx, per_key, {}
+
+    def __getattr__(self, name):
+        return getattr(self._ctx, name)
+
+    def fail(self, kind, case, what, key=None, detail=None):
+        if key is not None:
+            self._n[key] = self._n.get(key, 0) + 1
+            if self._n[key] > self._per_key:
+                self._ctx.count('known_finding_repeats_not_recorded')
+                return
+        self._ctx.fail(kind, case, what, key=key, detail=detail)
+
+
 def run(ctx: C.Ctx):
     rng = ctx.rng
+    budget = _RepeatBudget(ctx)
     ctx.rule = ('pairs of class families (F: a root with a Meta over {dump key transform, TIMESTAMP/ISO, recursive} nesting N; G: disjoint / '
                 'sharing the nested class N under another or no Meta / N used on its own / a later class with the same name; and the '
                 'wider source-rendered universe: Meta given as inner class / LoadMeta / DumpMeta / both, classes on JSONWizard, JSONPyWizard, '
                 'YAMLWizard, TOMLWizard, JSONFileWizard and combinations, load key transforms, strict unknown keys, json_key_to_field, tag, '
-                'documents in every key spelling carrying the other family\'s alias key) in every '
+                'documents in every key spelling carrying the other family\'s alias key; directed families: configuration through class keyword '
+                'arguments (key_case / debug / str) next to inner Meta / LoadMeta / DumpMeta, the second class mostly using the argument the first '
+                'does not, either definition order; a nested class with a Meta of its own (inner or bound: skip_defaults, strict unknown keys, tag_key, '
+                'transforms) that is a member of a Union field of an auto-tagging root and is then used on its own / below G - tag keys are '
+                'kept out of the G-side records; a nested JSONWizard class whose inner Meta derives from another class\'s inner Meta below a '
+                'recursive root, G unrelated) in every '
                 'operation order (G before F, after F, interleaved); each history runs in a forked pristine child; every G operation is re-run '
                 'with only G\'s definitions in another pristine child (C07: behaviour of G with F == behaviour of G alone); dump outcomes are '
                 'reduced to (class, key style, timestamps?) fingerprints and compared with the Lean cache state machine. '
                 'Non-trivial = distinct (family pair, order, position).')
-    n = ctx.quick(360, 4000)
+    n = ctx.quick(440, 4800)
     reqs, pend = [], []
     for i in range(n):
         if ctx.done(i):
@@ -367,17 +532,26 @@ def run(ctx: C.Ctx):
         wide = relation != 'same-name' and rng.random() < 0.6
         if wide and relation != 'disjoint' and rng.random() < 0.4:
             relation = 'disjoint'      # unrelated families are where nothing at all may change
+        focus = None
         if relation == 'same-name':
             ops, lite, ids = same_name_history(rng), None, None
         else:
             if wide:
-                (defs, f_ops, g_ops), lite = gen_pair2(rng, relation), None
+                # directed families over dimensions that are rare in the plain draw (see gen_pair2)
+                focus = rng.choice(['class-args', 'union-member', 'union-member', 'inherited-meta']) if rng.random() < 0.48 else None
+                if focus == 'class-args' and relation == 'nested-alone':
+                    relation = rng.choice(['disjoint', 'shared-nested'])
+                if focus == 'union-member' and relation == 'disjoint' and rng.random() < 0.8:
+                    relation = rng.choice(['nested-alone', 'shared-nested'])       # G = the member itself / a class with a field of its type
+                (defs, f_ops, g_ops), lite = gen_pair2(rng, relation, focus), None
             else:
                 defs, f_ops, g_ops, lite = gen_pair(rng, relation)
-            ops = defs + order_ops(rng, f_ops, g_ops)
+            # (a setting that is read when a class's functions are generated can only be lost before the class's first use)
+            ops = defs + (order_ops(rng, f_ops, g_ops, ('f-first', 'f-first', 'interleaved', 'g-first'), g_len=(3, 5)) if focus == 'union-member'
+                          else order_ops(rng, f_ops, g_ops))
         if not ctx.begin_case(i):
             continue
-        full = check_history(ctx, ('isolation-wide:' if wide else 'isolation:') + relation, i, ops, attribute=attribute_c07)
+        full = check_history(budget, ('isolation-wide:' if wide else 'isolation:') + relation, i, ops, attribute=attribute_c07)
         # ---- correspondence with the cache state machine (dump fingerprints)
         if lite is not None and full and full[0] and full[0][0] != 'harness-error':
             names = list(lite)
@@ -439,10 +613,38 @@ def same_name_history(rng):
     return ops
 
 
+def _masked_by_key_matching(ops, i, got, alone):
+    """load side of the recorded leak when both runs reject the document.  A load stops at the first error, so an error that is
+    itself the recorded symptom - a field reported missing although a spelling of its name is in the document, or (strict class) a
+    spelling of a field name reported unknown - hides whatever the other run goes on to report (a key unknown in both runs, a field
+    absent in both).  Same cause as attribute_nested_leak requires (a root with a load key transform / v1 key case reached the
+    class); the symptom must account for every name that only the one run reports."""
+    if ops[i]['op'] != 'load' or got[0] != 'err' or alone[0] != 'err' or not {got[1], alone[1]} <= {'MissingFields', 'UnknownKeysError'}:
+        return False
+    metas = class_metas(ops)
+    if not [r for r in leak_roots(ops, i) if (metas.get(r) or {}).get('key_transform_with_load') or (metas.get(r) or {}).get('v1_key_case')]:
+        return False
+    used = set(ops[i].get('uses') or [ops[i]['cls']])
+    strict_own = any((metas.get(c) or {}).get('raise_on_unknown_json_key') for c in used)
+    fields_n = {_nkey(f) for f in FIELD_NAMES}
+    exact, norm = _doc_keys(ops[i].get('doc'), exact=True), _doc_keys(ops[i].get('doc'))
+
+    def symptom(a, b):
+        only = set(a[2]) - (set(b[2]) if b[1] == a[1] else set())
+        if not only:
+            return False
+        if a[1] == 'MissingFields':
+            return all(_nkey(f) in norm for f in only)
+        return strict_own and all(k in exact and _nkey(k) in fields_n for k in only)
+    return symptom(got, alone) or symptom(alone, got)
+
+
 def attribute_c07(ops, i, got, alone):
     k = attribute_nested_leak(ops, i, got, alone, field_names=FIELD_NAMES, field_defaults=FIELD_DEFAULTS)
     if k:
         return k
+    if _masked_by_key_matching(ops, i, got, alone):
+        return 'shared-nested-config-leak'
     # a later class with the same __qualname__ as an earlier class that declared an inner Meta
     if ops[i].get('gen') == 2 and any(o.get('same_name_as_configured') for o in ops[:i]):
         return 'meta-initializer-by-qualname'
